@@ -599,6 +599,12 @@ func judgeSweep(sc *swSc, obs *swObs, res *verifsim.Result) (cycles int) {
 			if b >= from && b <= to && b-from <= interval+time.Minute {
 				return fmt.Sprintf("the node (re)built its schedule at %v, %v after the key's last advertisement (< interval: not part of the bootstrap catch-up)", b, b-from)
 			}
+			// the advertisement that opens the gap is the restarted instance's own (events take effect 17 s into their minute, the
+			// start-up advertisement follows within moments): the region then counts as reprovided "recently" and its first slot
+			// under the rebuilt schedule is passed over - the same mechanism
+			if b < from && from-b <= 2*time.Minute && b <= to {
+				return fmt.Sprintf("the node (re)built its schedule at %v and advertised the key %v later, at start-up: the region's next slot under the rebuilt schedule counts as recently done", b, from-b)
+			}
 		}
 		return ""
 	}
